@@ -499,7 +499,9 @@ class Fn:
             return set()
         visiting = visiting | {key}
         out = set()
-        if getattr(self, "_var_mode", False) and local in self.names and local != getattr(self, "_var_expand", None):
+        if getattr(self, "_var_mode", False) and local in self.names and local != getattr(self, "_var_expand", None) \
+                and not self.local_ty(local).get("closure"):
+            # (a variable that holds a closure is looked through: what it captured is the data)
             return {(("var", local),) + steps}
         if 1 <= local <= self.nargs:
             out.add((("param", local),) + steps)
@@ -614,6 +616,10 @@ class Fn:
             return {o + (("truncate", p.split("::")[-1]),) + steps for o in base}
         if p in NEXT_CALLS and cs.args:
             base = self._op_origins(cs.args[0], (), visiting)
+            if getattr(self, "content_flow", False) and len(steps) >= 2 and steps[0] == ("variant", "Some") and steps[1] == ("field", 0):
+                vals = self._vector_contents(base, tuple(steps[2:]), visiting)
+                if vals is not None:
+                    return vals
             return {o + (("next", self.id, cs.bb),) + steps for o in base}
         # local getter summaries
         summ = self.prog.return_summary(cs)
@@ -625,6 +631,42 @@ class Fn:
             if out:
                 return out
         return {(("call", self.id, cs.bb, cs.path),) + steps}
+
+    def _vector_contents(self, base, rest, visiting):
+        """An element taken out of a vector that this function created empty and filled only
+        with `push` is one of the pushed values (a two-stage pipeline - collect results, then
+        walk them - reads like the single loop it replaces).  None if that is not the case."""
+        if not base:
+            return None
+        creators = set()
+        for o in base:
+            if not (o[0][0] == "call" and o[0][1] == self.id and erase_generics(o[0][3]) in ("std::vec::Vec::new", "std::vec::Vec::with_capacity")):
+                return None
+            if not all(st[0] == "iter" and st[1] in ("into_iter", "iter", "drain", "iter_mut") for st in o[1:]):
+                return None
+            creators.add(o[0])
+        if getattr(self, "_identity_mode", False):
+            return None
+        out = set()
+        n_push = 0
+        for c in self.calls:
+            if not c.args:
+                continue
+            nm = c.name
+            if nm not in ("push", "insert", "extend", "append", "extend_from_slice", "resize", "push_str"):
+                continue
+            if not erase_generics(c.path).startswith("std::vec::Vec::"):
+                continue
+            tgt = self._op_origins(c.args[0], (), visiting)
+            if not any(t[0] in creators for t in tgt):
+                continue
+            if nm != "push" or not all(len(t) == 1 and t[0] in creators for t in tgt):
+                return None
+            n_push += 1
+            out |= self._op_origins(c.args[1], rest, visiting)
+        if not n_push:
+            return None
+        return out
 
     # ------------------------------------------------------------------ edge labels (A2)
     def _single_def(self, local, bb):
@@ -931,6 +973,10 @@ class Fn:
         for c in self.calls:
             if c.name == "is_empty" and c.args and is_coll(c.args[0]):
                 out |= self.bool_edges_of_call(c, not nonempty)
+            elif c.name in ("first", "last", "first_mut", "last_mut", "split_first", "split_last") and len(c.args) == 1 and is_coll(c.args[0]) \
+                    and "slice" in c.path:
+                # `match xs.first() { None => .., Some(x) => .. }`
+                out |= self.edges_of_call_variant(c, "Some" if nonempty else "None")
         return out
 
     def bool_edges_of_call(self, cs, truth):
